@@ -22,7 +22,7 @@ pub fn alphabet() -> Vec<(char, Spell)> {
         ('\n', Spell::Esc), ('\r', Spell::Esc), ('A', Spell::Hex), ('{', Spell::Raw), ('}', Spell::Raw), ('[', Spell::Raw), (' ', Spell::Raw),
         ('\n', Spell::Raw), ('$', Spell::Hex), ('\\', Spell::Hex), ('"', Spell::Hex), ('\t', Spell::Raw), ('\u{7f}', Spell::Hex), ('ß', Spell::Raw),
         // Code points whose last byte is that of `{`, `}`, `"`, `$`.
-        ('Ż', Spell::Raw), ('Ž', Spell::Raw), ('Ģ', Spell::Raw), ('🍻', Spell::Raw),
+        ('Ż', Spell::Raw), ('Ž', Spell::Raw), ('Ģ', Spell::Raw), ('🍻', Spell::Raw), ('\r', Spell::Raw),
     ]
 }
 
